@@ -8,10 +8,12 @@ import (
 	"fmt"
 	"net"
 	"net/http"
+	"net/http/httptest"
 	"os"
 	"path/filepath"
 	"sort"
 	"strings"
+	"sync/atomic"
 	"testing"
 	"time"
 
@@ -44,6 +46,9 @@ type M14Req struct {
 	Before  int      `json:"before_ago_s,omitempty"`
 	Limit   int      `json:"limit,omitempty"`
 	Preview bool     `json:"preview,omitempty"`
+	// LoseResponse (proxy mode): the Admin API applies the request, then the connection drops before
+	// the answer is written - the tool sees a transport error
+	LoseResponse bool `json:"lose_response,omitempty"`
 }
 
 type M14Case struct {
@@ -93,6 +98,7 @@ func genM14Case() *rapid.Generator[M14Case] {
 				r.Before = rapid.SampledFrom([]int{0, 0, 600, 1200, 900}).Draw(t, "before")
 				r.Limit = rapid.SampledFrom([]int{0, 0, 1, 2, 3, 1000}).Draw(t, "limit")
 				r.Preview = rapid.IntRange(0, 3).Draw(t, "preview") == 0
+				r.LoseResponse = rapid.IntRange(0, 2).Draw(t, "lose_response") == 0
 			} else {
 				k := rapid.IntRange(1, 4).Draw(t, "nids")
 				for i := 0; i < k; i++ {
@@ -142,6 +148,8 @@ func m14In(s string, l []string) bool {
 }
 
 func runM14(c M14Case) *mOutcome {
+	var loseNext atomic.Bool
+	var lost atomic.Int32
 	out := &mOutcome{}
 	labels := map[string]bool{}
 	defer func() {
@@ -194,7 +202,23 @@ func runM14(c M14Case) *mOutcome {
 			out.Failure = mfail("HARNESS", "listen", "", "%v", err)
 			return out
 		}
-		httpSrv := &http.Server{Handler: http.StripPrefix("/admin", adminSrv)}
+		inner := http.StripPrefix("/admin", adminSrv)
+		httpSrv := &http.Server{Handler: http.HandlerFunc(func(w http.ResponseWriter, r *http.Request) {
+			if loseNext.Load() && r.Method == http.MethodPost {
+				loseNext.Store(false)
+				lost.Add(1)
+				inner.ServeHTTP(httptest.NewRecorder(), r) // applied ...
+				if hj, ok := w.(http.Hijacker); ok {
+					if conn, _, err := hj.Hijack(); err == nil {
+						_ = conn.Close() // ... and never answered
+						return
+					}
+				}
+				w.WriteHeader(http.StatusBadGateway)
+				return
+			}
+			inner.ServeHTTP(w, r)
+		})}
 		done := make(chan struct{})
 		go func() { _ = httpSrv.Serve(ln); close(done) }()
 		defer func() { _ = httpSrv.Close(); <-done }()
@@ -293,7 +317,13 @@ func runM14(c M14Case) *mOutcome {
 		} else {
 			args["ids"] = r.IDs
 		}
+		lostBefore := lost.Load()
+		if r.LoseResponse && c.Mode == "proxy" && !r.Preview {
+			loseNext.Store(true)
+		}
 		res, err := rpcExchange(srv, "tools/call", map[string]any{"name": r.Tool, "arguments": args})
+		loseNext.Store(false)
+		responseLost := lost.Load() > lostBefore
 		if err != nil {
 			out.Failure = mfail("HARNESS", "rpc", "", "%v", err)
 			return out
@@ -330,11 +360,17 @@ func runM14(c M14Case) *mOutcome {
 		}
 		if res.HasRPCErr || isErr {
 			labels["tool-error"] = true
-			if len(changed) > 0 {
+			if responseLost {
+				// the Admin API applied the call once and the answer was lost: what changed is judged below
+				// (one application's worth, not more); the tool rightly reports a failure
+				labels["response-lost-after-apply"] = true
+			} else if len(changed) > 0 {
 				out.Failure = mfail("C14", "refused-but-changed", "", "step %d %s changed %d messages", i, desc, len(changed))
 				return out
 			}
-			continue
+			if !responseLost {
+				continue
+			}
 		}
 		// ---- independent selection
 		allowed := m14Allow[r.Tool]
@@ -425,6 +461,16 @@ func runM14(c M14Case) *mOutcome {
 				return out
 			}
 			labels["preview"] = true
+			continue
+		}
+		if responseLost {
+			// exactly what one application changes: never more (a blind re-send applies a limited by-filter call
+			// to the NEXT messages as well); the reported counts are not judged (the tool reported a failure)
+			if len(changed) > want {
+				out.Failure = mfail("C14", "applied-more-than-once", "", "step %d %s: the answer of the Admin API was lost after it had applied the call; %d messages changed, one application selects %d", i, desc, len(changed), want)
+				return out
+			}
+			out.NonTriv = true
 			continue
 		}
 		if len(changed) != want {
